@@ -100,10 +100,10 @@ class Env(object):
         self.rsa_uids = {}
 
     # ---- server-side key material
-    def sym_uid(self, c, otype, alg, key_hex, mask, activate=True):
+    def sym_uid(self, c, otype, alg, key_hex, mask, activate=True, cache=True):
         """Register (once) a SymmetricKey / SecretData with the given value; -> uid."""
         k = (otype, alg, key_hex, mask, activate)
-        if k in self.sym:
+        if cache and k in self.sym:
             return self.sym[k]
         if otype == "SecretData":
             obj = {"type": "SecretData", "value": key_hex, "dtype": "SEED"}
@@ -118,6 +118,8 @@ class Env(object):
             a = c.one({"op": "Activate", "uid": uid})
             if a["status"] != "SUCCESS":
                 raise core.HarnessError("Activate failed: %r" % (a,))
+        if not cache:
+            return uid
         if len(self.sym) > 400:
             self.sym.clear()
         self.sym[k] = uid
@@ -601,13 +603,52 @@ def case_wrap(env, s):
         mtype = s.get("mtype", "SymmetricKey")
         muid = env.sym_uid(c, mtype, s.get("malg", "AES"), s["mat"], M["ENCRYPT"] | M["WRAP_KEY"],
                            activate=bool(s.get("mactive")))
-        r = c.one({"op": "Get", "uid": muid,
-                   "wrap": {"method": "ENCRYPT", "enc": "NO_ENCODING",
-                            "eki": {"uid": wuid, "params": {"mode": "NIST_KEY_WRAP"}}}})
+        wget = {"op": "Get", "uid": muid,
+                "wrap": {"method": "ENCRYPT", "enc": "NO_ENCODING",
+                         "eki": {"uid": wuid, "params": {"mode": "NIST_KEY_WRAP"}}}}
+        shape = s.get("shape", "single")
+        out.tuple_extra += "|" + shape
+        extra = []          # (label, plain item result) to compare after the first answer
+        if shape == "single":
+            r = c.one(wget)
+        else:
+            # the same wrapped Get inside a batch: twice, or followed by an item that commits
+            # (Activate of a fresh key) and a plain Get of the wrapped object
+            second = dict(wget, bid="02")
+            if shape == "batch-commit":
+                fresh = env.sym_uid(c, "SymmetricKey", "AES", "5a" * 16, M["ENCRYPT"],
+                                    activate=False, cache=False)
+                second = {"op": "Activate", "uid": fresh, "bid": "02"}
+            rr = c.request([dict(wget, bid="01"), second, {"op": "Get", "uid": muid, "bid": "03"}],
+                           cont="CONTINUE")
+            its = rr["items"] or []
+            r = its[0] if its else {"status": "REQUEST_ERROR", "payload": None}
+            if len(its) == 3:
+                if shape == "batch2":
+                    extra.append(("second-wrapped-get-in-batch", its[1]))
+                extra.append(("plain-get-in-same-batch", its[2]))
+            extra.append(("wrapped-get-in-later-request", c.one(wget)))
+            extra.append(("plain-get-in-later-request", c.one({"op": "Get", "uid": muid})))
         if r["status"] != "SUCCESS" or r["payload"] is None:
             return out.rejected()
         sec = r["payload"]["secret"]
         got = hx(sec["value"] or "")
+        for label, x in extra:
+            if x["status"] != "SUCCESS" or x["payload"] is None:
+                continue
+            xs = x["payload"]["secret"]
+            xv = hx(xs["value"] or "")
+            try:
+                if label.startswith("plain"):
+                    if xv != mat or xs.get("wrap"):
+                        out.fail("wrapping-disturbed-the-object|" + label,
+                                 "plain Get returns %s (wrapping data %r), stored material %s"
+                                 % (_short(xv), xs.get("wrap"), _short(mat)))
+                elif xv != R.aes_wrap_ref(kek, mat):
+                    out.fail("repeated-wrap-differs|" + label,
+                             "got %s want %s" % (_short(xv), _short(R.aes_wrap_ref(kek, mat))))
+            except Exception:
+                pass
         w = sec.get("wrap") or {}
         out.judged = True
         if (w.get("eki") or {}).get("uid") != wuid or w.get("method") != "ENCRYPT":
@@ -1194,6 +1235,7 @@ def complete(cell, draw, free=False):
         if lvl == "s":
             s["malg"] = draw(st.sampled_from(["AES", "BLOWFISH", "HMAC_SHA256"]))
             s["mactive"] = draw(st.booleans())
+            s["shape"] = draw(st.sampled_from(["single", "single", "batch2", "batch-commit"]))
         return s
     if k == "sign":
         n = _msg_len(draw, rand_len or cell.get("lc") or draw(st.sampled_from(["0", "1", "long"])), 64)
